@@ -251,6 +251,12 @@ def check_iteration(ck):
                     pass
         for a in getattr(obj, "args", ()) or ():
             out |= reach(a, depth + 1, seen)
+        if isinstance(obj, (list, tuple, set, frozenset)):
+            for a in obj:
+                out |= reach(a, depth + 1, seen)
+        if isinstance(obj, dict):
+            for a in obj.values():
+                out |= reach(a, depth + 1, seen)
         for c in getattr(obj, "__closure__", None) or ():
             try:
                 out |= reach(c.cell_contents, depth + 1, seen)
@@ -260,9 +266,34 @@ def check_iteration(ck):
     eqs = _debug_eqns(trm.jaxpr)
     targets = [reach(e.params.get("callback")) for e in eqs]
     nm = {id(b0): "backend0", id(b1): "backend1"}
-    ok2 = len(eqs) == 2 and all(_is_ordered(e) for e in eqs) and all(len(t) == 1 for t in targets) and set().union(*targets) == {id(b0), id(b1)} if targets else False
-    ck.fact("iteration.each_backend_gets_its_own_ordered_record@backends=2", bool(ok2),
-            f"{len(eqs)} host callbacks; they reach {[[nm.get(i, '?') for i in t] for t in targets]} (each backend must be reached by exactly one ordered callback)")
+    # sound criterion (independent of how the records are grouped into host callbacks): every backend is reachable from some ORDERED host callback
+    covered = set().union(*[t for e, t in zip(eqs, targets) if _is_ordered(e)]) if eqs else set()
+    ok2 = covered >= {id(b0), id(b1)}
+    if not ok2:
+        # confirm on the real code before reporting: run the real on_iteration with two recording backends
+        got = {"backend0": 0, "backend1": 0}
+
+        class Counting0(Rec):
+            def log_scalars(self, scalars, step):
+                got["backend0"] += 1
+
+        class Counting1(Rec):
+            def log_scalars(self, scalars, step):
+                got["backend1"] += 1
+        cbr = LoggingCallback([Counting0(), Counting1()], name="verif-replay", alpha=0.5)
+        ctx = IterationContext(EmptyCallbackState(), example_log_state((E,)), env, pol, jnp.array(0), None, {"loss": jnp.zeros(())}, algo, {})
+        import equinox as eqx
+        eqx.filter_jit(lambda c, k: cbr.on_iteration(c, key=k))(ctx, jr.key(0))      # as training runs it: inside a compiled program
+        jax.effects_barrier()
+        confirmed = min(got.values()) == 0
+        detail = f"{len(eqs)} host callbacks reach {[[nm.get(i, '?') for i in t] for t in targets]}; real run with two recording backends: records received {got}"
+        if confirmed:
+            ck.fact("iteration.every_backend_gets_an_ordered_record@backends=2", False, detail)
+        else:
+            ck.skip("iteration.every_backend_gets_an_ordered_record@backends=2", "closure graph inconclusive (a backend is not reachable from the IR callbacks, yet the real run delivered a record to every backend): " + detail)
+    else:
+        ck.fact("iteration.every_backend_gets_an_ordered_record@backends=2", True,
+                f"{len(eqs)} host callbacks; they reach {[[nm.get(i, '?') for i in t] for t in targets]} (every backend must be reachable from an ordered host callback)")
     # cumulative number of environment steps: one real PPO iteration with E=2, S=2 advances every environment's counter by S
     st = jax.eval_shape(lambda k: algo.reset(env, pol, key=k, callback=cb), jr.key(0))
     from jaxsmt import stubs
